@@ -1,7 +1,7 @@
 // C23 — the mempool hands block producers only packable transactions.
 // Pool contents = every ordered selection (<=4 quick, <=5 thorough) of 8 transactions: plain a, b;
 // one expiring by height, one by block time; eth-signed sender X with nonces 0,1,3 and sender Y
-// with nonce 5; optionally the first one or two entries older than the pool-age limit. Every such
+// with nonces 5 and 1; optionally the first one or two entries older than the pool-age limit. Every such
 // pool (a real Mempool, filled through PushTx) is queried through the real EventTxList handler with
 // every count, every exclusion subset of its hashes, four (height,time) header edges, four scripted
 // (current nonce X, current nonce Y) answers of a fake "rpc" module and both iteration orders of
@@ -53,7 +53,7 @@ var (
 	addrX   string
 	addrY   string
 	headers = [][2]int64{{3, tExp - 1}, {4, tExp - 1}, {3, tExp}, {4, tExp}}
-	nonces  = [][2]int64{{0, 5}, {1, 4}, {2, 5}, {3, 6}}
+	nonces  = [][2]int64{{0, 5}, {1, 4}, {2, 5}, {3, 6}, {1, 0}, {0, 1}}
 	ethSign = types.EncodeSignID(secp256k1eth.ID, eth.ID)
 )
 
@@ -86,6 +86,9 @@ func setup() {
 	pl := types.Encode(&cty.CoinsAction{Value: &cty.CoinsAction_Transfer{Transfer: &types.AssetsTransfer{Amount: 1e8}}, Ty: cty.CoinsActionTransfer})
 	mk := func(name string, nonce, expire int64, ty int32, k crypto.PrivKey, snd string) {
 		t := &types.Transaction{Execer: []byte("coins"), Payload: pl, Fee: 100000, Expire: expire, Nonce: nonce, To: to, ChainID: cfg.GetChainID()}
+		if name == "Y1" {
+			t.Fee++ // the hash does not cover the signer: without this Y1 would BE X1
+		}
 		t.Sign(ty, k)
 		u := &utx{name: name, tx: t, hash: string(t.Hash()), nonce: nonce}
 		if types.IsEthSignID(t.Signature.Ty) {
@@ -104,6 +107,7 @@ func setup() {
 	mk("X1", 1, 0, ethSign, kx, addrX)
 	mk("X3", 3, 0, ethSign, kx, addrX)
 	mk("Y5", 5, 0, ethSign, ky, addrY)
+	mk("Y1", 1, 0, ethSign, ky, addrY) // a nonce that is also pooled for X (and that is X's current nonce in one of the answers)
 }
 
 // env: a queue with a fake "rpc" module that answers the current-nonce query from a script.
@@ -288,7 +292,7 @@ func main() {
 	maxPool := r.Pick(4, 5)
 	maxAged := r.Pick(1, 2)
 	thinMasks := r.Quick()
-	r.Rule = fmt.Sprintf("pool = every ordered selection of <=%d of {a, b, eh(expires at height 5), et(expires at block time T), X0, X1, X3, Y5} pushed into a real Mempool, first 0..%d entries aged 600 s; queries = EventTxList with every count 1..n+1 x every exclusion subset of the pool's hashes (quick tier: pools of the largest size get the empty, singleton and full lists only) x headers {(3,T-1),(4,T-1),(3,T),(4,T)} x current nonces (X,Y) in {(0,5),(1,4),(2,5),(3,6)} x both iteration orders of the per-sender map when two eth senders are present. states = distinct (ordered pool, aged prefix); transitions = pushes; distinct = distinct reply shapes (how many plain / eth entries, cut by count, nonce gap...)", maxPool, maxAged)
+	r.Rule = fmt.Sprintf("pool = every ordered selection of <=%d of {a, b, eh(expires at height 5), et(expires at block time T), X0, X1, X3, Y5, Y1} pushed into a real Mempool, first 0..%d entries aged 600 s; queries = EventTxList with every count 1..n+1 x every exclusion subset of the pool's hashes (quick tier: pools of the largest size get the empty, singleton and full lists only) x headers {(3,T-1),(4,T-1),(3,T),(4,T)} x current nonces (X,Y) in {(0,5),(1,4),(2,5),(3,6),(1,0),(0,1)} x both iteration orders of the per-sender map when two eth senders are present. states = distinct (ordered pool, aged prefix); transitions = pushes; distinct = distinct reply shapes (how many plain / eth entries, cut by count, nonce gap...)", maxPool, maxAged)
 	r.Assume = []string{
 		"the current-nonce query is answered by a scripted \"rpc\" module on the real queue",
 		"per-sender nonce order is required within a sender; the relative order of different eth senders is free (both orders of the map iteration are forced and both must satisfy the predicates)",
